@@ -353,7 +353,7 @@ def run(chk: Check):
         _b1(chk, dict(NR=2, MaxSeed=2, MaxTemp=2, Grants="1,2,3,4,5,6,7", Depth=5), "2r-d5")
         # two sessions, asset URL shared across sessions (no one-shot caps)
         _b1(chk, dict(NR=3, MaxSeed=2, MaxTemp=0, Grants="1,5,6", Depth=5), "3r-d5-small")
-        _algo(chk, dict(NR=2, MaxSeed=2, MaxTemp=1, Grants="1,3,5", Depth=5), "2r-d5-small")
+        _algo(chk, dict(NR=2, MaxSeed=2, MaxTemp=1, Grants="1,3", Depth=5), "2r-d5-small")
     else:
         _b1(chk, dict(NR=3, MaxSeed=2, MaxTemp=1, Grants="1,2,3,4,5,6,7", Depth=5), "3r-d5")
         _b1(chk, dict(NR=2, MaxSeed=3, MaxTemp=2, Grants="1,2,3,4,5,6,7", Depth=6), "2r-d6")
